@@ -81,6 +81,13 @@ Proof. exact vcanon_sorted. Qed.
 Theorem C02_canonical_idempotent : forall v, vcanon (vcanon v) = vcanon v.
 Proof. exact vcanon_idem. Qed.
 
+
+Theorem C02_heap_string_and_native : forall (fadd fmul fdiv : Z -> Z -> Z) (of_int : Z -> Z) s r v t, nth_error (st_env s) r = Some v ->
+  reify (fuel_of (st_heap s)) (st_heap s) v = Some t ->
+  xstep_core fadd fmul fdiv of_int s (XString r) = (s, XRet (XTree (vcanon t))) /\
+  xstep_core fadd fmul fdiv of_int s (XNative r) = (s, XRet (XTree (vcanon t))).
+Proof. exact xstring_step. Qed.
+
 Print Assumptions C02_valid_and_same_data.
 Print Assumptions C02_reference_decoder.
 Print Assumptions C02_decoder_decides_grammar.
@@ -94,3 +101,4 @@ Print Assumptions C02_canonical_data_equals_the_container.
 Print Assumptions C02_canonical_data_wf.
 Print Assumptions C02_canonical_data_sorted.
 Print Assumptions C02_canonical_idempotent.
+Print Assumptions C02_heap_string_and_native.
